@@ -741,7 +741,6 @@ func lookupAt(pj *simdjson.ParsedJson, docs []abs.Value, path []int) (err error)
 	return nil
 }
 
-
 // pathsIndependent: no two operations address the same position or a position inside another's
 // (an iterator obtained earlier caches the type of its position).
 func pathsIndependent(h []tapex.Op) bool {
